@@ -1,10 +1,11 @@
 """C20 - driver contract: exit status, all-or-nothing output, flags.
 
-1. TLC model-checks SyltDriver (MC_Driver): every configuration (sink x --require spelling x --no-std x program class x
-   uses-std; 6720) is walked to its end with the contract (exit = 0 <=> success, every error printed, FILE / stdout /
-   the child's chunk complete or untouched, run output only in run mode) evaluated in every state, and one REPLAY
-   record per behaviour is printed. Three defective variants of the machine (partial write, silent exit, exit 0
-   despite errors) must each violate the matching invariant (spec-level negative controls).
+1. TLC model-checks SyltDriver (MC_Driver): every configuration (sink - output path and the kind of object stdout / stderr
+   are - x --require spelling x --no-std x program class x uses-std; 9044) is walked to its end with the contract
+   (exit = 0 <=> success, every error printed, FILE / stdout / the child's chunk complete or untouched, run output only in
+   run mode, stdout / stderr append-only streams) evaluated in every state, and one REPLAY record per behaviour is
+   printed. Four defective variants of the machine (partial write, silent exit, exit 0 despite errors, `-o -` through a
+   second truncating opening of stdout) must each violate the matching invariant (spec-level negative controls).
 2. The recorder (c20) materialises every configuration in its own scratch directory, runs the built `sylt` binary with
    a `lua` shim (minilua) first on PATH and records raw facts; the reference is the library API on the same files.
    TLC (Trace_Driver) re-derives each configuration from its index, replays SyltDriver for it, derives the observation
@@ -14,7 +15,8 @@
    configurations per kind, the world left behind by the command changed the way a defective driver would have left it
    (exit status flipped, errors not / partly / twice printed, FILE half-written / truncated / one byte short, an extra
    byte on `-o -`, the require twice / missing / late / of another module, --no-std changing the program, the program
-   never run). TLC must reject every such record with the verdict of its clause and must reject nothing else.
+   never run, earlier content of stdout / stderr lost and the later write on top of the output, only the entry file's
+   errors of a multi-file project printed). TLC must reject every such record with the verdict of its clause and must reject nothing else.
 quick = the whole configuration space once (variant 0, canonical spelling); thorough = x 3 programs per class x 2 spellings.
 """
 import json
@@ -25,8 +27,8 @@ import vlib
 
 PID = "C20"
 SPEC_ACTIONS = ("ParseArgs", "CompileOk", "CompileErrN", "RunOk", "RunFail", "WriteStdout", "WriteStdoutFail", "WriteStdoutLost", "OutputFailEarly",
-                "WriteFileOk", "WriteFileFail", "PrintErrors", "Exit")
-BAD_ACTIONS = ("BadPartialWrite", "BadSilentExit", "BadExitZero")
+                "WriteFileOk", "WriteFileFail", "PrintErrors", "Exit", "Later")
+BAD_ACTIONS = ("BadPartialWrite", "BadSilentExit", "BadExitZero", "BadReopenStdout")
 MINILUA = os.path.join(vlib.ROOT, "minilua")
 # The property requires a non-zero exit, every error printed and nothing half-written. A Rust panic message that names
 # the failure satisfies these words; C20_STRICT_PANIC=1 makes a panic as the only diagnostic a violation (panic-message).
@@ -65,9 +67,10 @@ def prog_of(cfg):
 
 
 def path_of(cfg):
+    io = "" if cfg["io"] == "fresh" else "+stdio=" + cfg["io"]
     if cfg["mode"] == "stdout":
-        return "stdout-unwritable" if cfg["path"] == "unwritable" else "stdout"
-    return cfg["path"]
+        return ("stdout-unwritable" if cfg["path"] == "unwritable" else "stdout") + io
+    return cfg["path"] + io
 
 
 def expected_module(cfg):
@@ -110,7 +113,7 @@ def spec_model(wd, ev):
     ev.set(spec_model={"configurations": len(base), "behaviours": len(r.records), "states": r.distinct,
                        "actions": {k: v[1] for k, v in r.coverage.items()},
                        "invariants": ["TypeOK", "ExitIffSuccess", "ErrorsPrinted", "AllOrNothing", "SinksWhole", "RunOutput",
-                                      "Progress", "Bounded"],
+                                      "StreamsAppendOnly", "Progress", "Bounded"],
                        "assumes": ["UniverseWellFormed", "SinkIndependence", "NoStdNeutralForStdFree", "NoStdRejectsStdUsers"]})
     # the stricter reading (an unwritable stdout must be reported) is a consistent contract too
     st = vlib.tlc("MC_DriverLite", cfg="MC_Driver_strict.cfg", wd=wd, timeout=900, workers=2, tags=(), out_file=os.path.join(wd, "tlc-MC_Driver_strict.out"))
@@ -120,7 +123,7 @@ def spec_model(wd, ev):
     # spec-level negative controls: a defective machine must break the matching clause of the contract
     broken = {}
     for cfg, inv in (("MC_Driver_faulty.cfg", "AllOrNothing"), ("MC_Driver_faulty2.cfg", "ErrorsPrinted"),
-                     ("MC_Driver_faulty3.cfg", "ExitIffSuccess")):
+                     ("MC_Driver_faulty3.cfg", "ExitIffSuccess"), ("MC_Driver_faulty4.cfg", "StreamsAppendOnly")):
         f = vlib.tlc("MC_DriverLite", cfg=cfg, wd=wd, timeout=900, workers=2, out_file=os.path.join(wd, "tlc-" + cfg + ".out"))
         if f.timed_out or f.invariant_violated != inv:
             vlib.tool_error("negative control accepted: the defective driver model does not violate %s (%s; log %s)" % (
@@ -141,7 +144,7 @@ def make_cases(base, nv, ns):
 
 def validate(wd, name, trace, nv, ns, n, workers=None):
     r = vlib.tlc("MC_TraceDriver", cfg="MC_TraceDriver.cfg", wd=wd, env={"TRACE": trace, "V": nv, "S": ns, "PANIC_OK": PANIC_OK, "STRICT_STDOUT": STRICT_STDOUT},
-                 tags=("REJECT",), workers=workers or min(8, vlib.NCPU), timeout=1500,
+                 tags=("REJECT",), workers=workers or min(4, vlib.NCPU), timeout=2400,
                  out_file=os.path.join(wd, "tlc-" + name + ".out"))
     vlib.require_tlc_ok(r, "Trace_Driver/" + name)
     rejects = {p["rec"]: p for (_, p) in r.records}   # ENABLED re-evaluates PrintT: dedupe
@@ -165,7 +168,8 @@ def describe(rec, rej, what):
         "chunk": "the child lua received a %s chunk (expected %s)" % (o["chunk"], e["chunk"]),
         "run-output": "stdout does not carry the run's output (%s expected)" % e["sorun"],
         "errors-missing": "%d error blocks rendered, %d errors to print (%s); missing imports %s, named in the output: %s" % (
-            o["blocks"], len(e["printed"]), ",".join(e["printed"][:4]), rec["missing"], rec["blocks"]["named"]),
+            o["blocks"], len(e["printed"]), ",".join(e["printed"][:4]), rec["missing"], rec["blocks"]["named"])
+                          + "; files carrying a planted error %s, files named by the printed errors %s" % (rec["planted"], rec["blocks"]["files"]),
         "errors-extra": "%d error blocks rendered, %d errors to print" % (o["blocks"], len(e["printed"])),
         "errors-spurious": "%d error blocks rendered although the command succeeds" % o["blocks"],
         "errors-location": "rendered error blocks name other file:line than the library's error list",
@@ -175,6 +179,10 @@ def describe(rec, rej, what):
         "no-std": "observation differs from the same configuration with --no-std toggled (program does not use std)",
         "panic-message": "the only diagnostic is a panic message",
         "hang": "the command did not finish within the timeout",
+        "stdout-disturbed": "the object behind stdout holds %s afterwards (expected %s): %r" % (
+            "+".join(o["streams"]["out"]), "+".join(e["streams"]["out"]), rec["world"]["so"]),
+        "stderr-disturbed": "the object behind stderr holds %s afterwards (expected %s): %r" % (
+            "+".join(o["streams"]["err"]), "+".join(e["streams"]["err"]), rec["world"]["se"]),
     }.get(what, what)
     return "`%s` (%s): %s" % (cmd, world, detail)
 
@@ -216,31 +224,45 @@ def _emits_plain(b):
     return _regular(b) or (b["cfg"]["mode"] == "stdout" and b["cfg"]["path"] == "none")
 
 
+def _blocks_on_stdout(r):
+    """error blocks the command printed (the stubs that cut the error output work on stdout)"""
+    return r["blocks_so"]
+
+
 # kind -> (which configurations the stub makes sense for (REPLAY record b), the verdict TLC must give)
 STUBS = [
-    ("exit0", lambda b: _rejected(b), "exit"),
-    ("exit1", lambda b: b["success"], "exit"),
-    ("silent", lambda b: _rejected(b) and b["cfg"]["path"] != "unwritable", "errors-missing"),
-    ("first-only", lambda b: b["cfg"]["pk"] == "rej" and b["cfg"]["pn"] == 2 and not b["cfg"]["std"] and b["cfg"]["path"] != "unwritable",
-     "errors-missing"),
-    ("twice", lambda b: _rejected(b) and b["cfg"]["path"] != "unwritable", "errors-extra"),
-    ("exit-count", lambda b: b["cfg"]["pk"] == "rej" and b["cfg"]["pn"] in (256, 512) and b["cfg"]["path"] != "unwritable", "exit"),
-    ("partial-file", lambda b: _rejected(b) and _regular(b), "partial-file"),
-    ("truncate-file", lambda b: _rejected(b) and b["cfg"]["mode"] == "file" and b["cfg"]["path"].startswith("existing"), "partial-file"),
-    ("short-file", lambda b: b["success"] and _regular(b), "partial-file"),
-    ("keep-tail", lambda b: b["success"] and b["cfg"]["path"] == "existing_longer", "partial-file"),
-    ("newline", lambda b: b["success"] and b["cfg"]["mode"] == "stdout", "partial-stdout"),
-    ("newline", lambda b: b["success"] and b["cfg"]["mode"] == "stdout", "bytes-differ"),
-    ("req2", lambda b: b["success"] and b["cfg"]["req"] and _emits_plain(b), "require"),
-    ("req0", lambda b: b["success"] and b["cfg"]["req"] and _emits_plain(b), "require"),
-    ("req-late", lambda b: b["success"] and b["cfg"]["req"] and _emits_plain(b), "require"),
-    ("req-other", lambda b: b["success"] and b["cfg"]["req"] and _emits_plain(b), "require"),
-    ("req-stem", lambda b: b["success"] and b["cfg"]["req"] and "." in expected_module(b["cfg"]) and _emits_plain(b), "require"),
-    ("nostd", lambda b: b["success"] and b["eff"] == "acc" and not b["cfg"]["std"] and _emits_plain(b), "no-std"),
-    ("refuse-special", lambda b: b["success"] and b["cfg"]["path"] in ("dev_null", "dev_stdout"), "exit"),
-    ("drop-missing", lambda b: b["cfg"]["why"] in ("missing2", "missing3") and b["cfg"]["path"] != "unwritable", "errors-missing"),
-    ("lose-bytes", lambda b: b["success"] and b["cfg"]["why"] in ("longline", "longline_nl") and b["cfg"]["mode"] == "stdout", "bytes-differ"),
-    ("run-skip", lambda b: b["cfg"]["mode"] == "run" and b["cfg"]["std"] and b["eff"] in ("acc", "rt"), "run-output"),
+    ("exit0", lambda b, r: _rejected(b), "exit"),
+    ("exit1", lambda b, r: b["success"], "exit"),
+    ("silent", lambda b, r: _rejected(b) and b["cfg"]["path"] != "unwritable", "errors-missing"),
+    # (applies where the command printed at least two error blocks on stdout: read off the main recording)
+    ("first-only", lambda b, r: b["cfg"]["pk"] == "rej" and b["cfg"]["pn"] == 2 and not b["cfg"]["std"] and b["cfg"]["path"] != "unwritable"
+     and _blocks_on_stdout(r) >= 2, "errors-missing"),
+    # ... the same for a project whose broken files import broken / missing / conflict-marked files: only the entry file's error is printed
+    ("first-only", lambda b, r: b["cfg"]["why"] == "chain" and b["cfg"]["path"] != "unwritable" and _blocks_on_stdout(r) >= 2, "errors-missing"),
+    ("twice", lambda b, r: _rejected(b) and b["cfg"]["path"] != "unwritable", "errors-extra"),
+    ("exit-count", lambda b, r: b["cfg"]["pk"] == "rej" and b["cfg"]["pn"] in (256, 512) and b["cfg"]["path"] != "unwritable", "exit"),
+    ("partial-file", lambda b, r: _rejected(b) and _regular(b), "partial-file"),
+    ("truncate-file", lambda b, r: _rejected(b) and b["cfg"]["mode"] == "file" and b["cfg"]["path"].startswith("existing"), "partial-file"),
+    ("short-file", lambda b, r: b["success"] and _regular(b), "partial-file"),
+    ("keep-tail", lambda b, r: b["success"] and b["cfg"]["path"] == "existing_longer", "partial-file"),
+    ("newline", lambda b, r: b["success"] and b["cfg"]["mode"] == "stdout", "partial-stdout"),
+    ("newline", lambda b, r: b["success"] and b["cfg"]["mode"] == "stdout", "bytes-differ"),
+    ("req2", lambda b, r: b["success"] and b["cfg"]["req"] and _emits_plain(b), "require"),
+    ("req0", lambda b, r: b["success"] and b["cfg"]["req"] and _emits_plain(b), "require"),
+    ("req-late", lambda b, r: b["success"] and b["cfg"]["req"] and _emits_plain(b), "require"),
+    ("req-other", lambda b, r: b["success"] and b["cfg"]["req"] and _emits_plain(b), "require"),
+    ("req-stem", lambda b, r: b["success"] and b["cfg"]["req"] and "." in expected_module(b["cfg"]) and _emits_plain(b), "require"),
+    ("nostd", lambda b, r: b["success"] and b["eff"] == "acc" and not b["cfg"]["std"] and _emits_plain(b), "no-std"),
+    ("refuse-special", lambda b, r: b["success"] and b["cfg"]["path"] in ("dev_null", "dev_stdout"), "exit"),
+    ("drop-missing", lambda b, r: b["cfg"]["why"] in ("missing2", "missing3") and b["cfg"]["path"] != "unwritable", "errors-missing"),
+    ("lose-bytes", lambda b, r: b["success"] and b["cfg"]["why"] in ("longline", "longline_nl") and b["cfg"]["mode"] == "stdout", "bytes-differ"),
+    ("run-skip", lambda b, r: b["cfg"]["mode"] == "run" and b["cfg"]["std"] and b["eff"] in ("acc", "rt"), "run-output"),
+    # stdout / stderr written through a second, truncating opening of the object behind the descriptor
+    ("reopen-stdout", lambda b, r: b["success"] and b["cfg"]["mode"] == "stdout" and b["cfg"]["io"] in ("append", "shared"), "stdout-disturbed"),
+    ("reopen-stdout", lambda b, r: b["cfg"]["io"] == "shared" and r["world"]["so"]["len"] > r["world"]["so"]["pre_len"] + r["world"]["so"]["post_len"],
+     "stdout-disturbed"),
+    ("reopen-stderr", lambda b, r: b["cfg"]["io"] in ("append", "shared") and r["world"]["se"]["len"] > r["world"]["se"]["pre_len"] + r["world"]["se"]["post_len"],
+     "stderr-disturbed"),
 ]
 PER_STUB = 2
 
@@ -250,7 +272,7 @@ def negative_controls(wd, base, cases, main_recs, nv, ns, sylt, lua, main_reject
     neg = [dict(c) for c in cases]
     assigned = {}                               # idx -> (kind, expected verdict)
     for kind, pred, want in STUBS:
-        cand = [c for c in neg if c["idx"] not in assigned and c["idx"] not in main_rejects and pred(base[c["base"]])]
+        cand = [c for c in neg if c["idx"] not in assigned and c["idx"] not in main_rejects and pred(base[c["base"]], main_recs[c["idx"] - 1])]
         if len(cand) < PER_STUB:
             vlib.tool_error("vacuity: no configuration left for the negative control %s" % kind)
         for c in rng.sample(cand, PER_STUB):
@@ -337,6 +359,22 @@ def recording_guards(recs, ns):
         "--no-std turned a std-using program into a rejected one": count(lambda r: r["cfg"]["std"] and r["cfg"]["nostd"] and r["cfg"]["pk"] != "rej"
                                                                          and r["ref"]["class"] == "err"),
         "std-free program emitted with and without --no-std": count(lambda r: not r["cfg"]["std"] and r["emit"]["present"]),
+        "-o - through a pipe": count(lambda r: r["cfg"]["io"] == "pipe" and r["emit"]["present"] and r["emit"]["digest"] == r["ref"]["lua_digest"]),
+        "-o - appended to a log that keeps its earlier content (>>)": count(
+            lambda r: r["cfg"]["io"] == "append" and r["cfg"]["mode"] == "stdout" and r["emit"]["present"] and r["emit"]["digest"] == r["ref"]["lua_digest"]
+            and r["world"]["so"]["pre_len"] > 0 and r["world"]["so"]["pre_ok"]),
+        "-o - between a header and a footer written through the same descriptor": count(
+            lambda r: r["cfg"]["io"] == "shared" and r["cfg"]["mode"] == "stdout" and r["emit"]["present"] and r["emit"]["digest"] == r["ref"]["lua_digest"]
+            and r["world"]["so"]["pre_ok"] and r["world"]["so"]["post_ok"] and r["world"]["so"]["post_len"] > 0),
+        "run output between a header and a footer written through the same descriptor": count(
+            lambda r: r["cfg"]["io"] == "shared" and r["cfg"]["mode"] == "run" and r["ref"]["run"]["out_len"] > 0 and r["so"]["has_out"]
+            and r["world"]["so"]["pre_ok"] and r["world"]["so"]["post_ok"]),
+        "errors printed behind the earlier content of stdout / stderr, footer behind them": count(
+            lambda r: r["cfg"]["io"] == "shared" and r["ref"]["class"] == "err" and r["blocks"]["n"] == r["ref"]["nerrors"] > 0 and r["se"]["len"] > 0
+            and all(r["world"][s]["pre_ok"] and r["world"][s]["post_ok"] for s in ("so", "se"))),
+        "broken files importing broken / missing / conflict-marked files: every file's error printed": count(
+            lambda r: r["cfg"]["why"] == "chain" and len(r["planted"]) >= 5 and set(r["planted"]) <= set(r["blocks"]["files"])
+            and r["blocks"]["n"] == r["ref"]["nerrors"] >= len(r["planted"])),
     }
     if ns > 1:
         guards["command lines spelled differently"] = len({" ".join(r["argv"]) for r in recs if r["spell"] > 0} - {" ".join(r["argv"]) for r in recs if r["spell"] == 0})
@@ -402,7 +440,8 @@ def run(ctx):
     open_status = [x for x in recs if x["cfg"]["path"] == "unwritable" and x["ref"]["class"] == "ok"]
     ev.set(traces_validated_against_impl=len(recs), evaluations=len(recs), programs=len({vlib.sha(x["files"]) for x in recs}),
            distinct_nontrivial=len({vlib.sha([x["argv"], x["files"], x["cfg"]["path"]]) for x in recs}),
-           rule="every configuration of SyltDriver's universe (15 sinks x {no --require, 6 spellings of M} x --no-std x 16 program classes x uses-std = %d), "
+           rule="every configuration of SyltDriver's universe (19 sinks - 15 output paths with fresh stdout/stderr, `-o -` with stdout/stderr a pipe / an appended-to log / "
+                "a file shared with an earlier and a later writer, run mode on such a shared file - x {no --require, 6 spellings of M} x --no-std x 17 program classes x uses-std = %d), "
                 "x %d program variants per class x %d command-line spellings (spelling 0 canonical, the others seeded random: "
                 "-o/--output/--output=F/-oF, --require/-r/=, argument order); a case is one run of the built sylt binary in its own scratch "
                 "directory; distinct = different (argv, program files, state of the output path)" % (len(base), nv, ns),
